@@ -17,7 +17,8 @@ LEVEL = ("Classical static necessary conditions for deadlock freedom and complet
          "num_tune + num_draws (R5). Absence of deadlock over all interleavings is not decided (that needs a protocol model, a different technique)."
          " Added: the response of a request is awaited with the blocking recv (R3)."
          " Added (round 4): the per-draw progress update is applied to the shared counters behind their mutex (R5); inside its command loop the controller waits only in recv_timeout, response sends and locks (R9)."
-         " Added (round 5): no draw without a test of the draw budget, the first one included (R10; decided F15); the result of forwarding Pause / Resume to a chain is never propagated or unwrapped in the controller (R11); a chain that found a starting point runs (R12 = C13-R3 analysis).")
+         " Added (round 5): no draw without a test of the draw budget, the first one included (R10; decided F15); the result of forwarding Pause / Resume to a chain is never propagated or unwrapped in the controller (R11); a chain that found a starting point runs (R12 = C13-R3 analysis)."
+         " Added (round 6): only finalisation empties a chain's trace slot (R13); every non-empty sample buffer is handed out independent of earlier flushes (R14 = C15-R5); the trace's diverging flag is `divergence info present` (R15 = C16-R4 clause).")
 EXPLANATION = ("Guard-liveness dataflow on MIR (lock call -> guard local -> drop terminator), lock-class edges closed over the call graph, blocking-call "
                "table, dominance / per-path call counting on the request methods, the controller loop and the worker loop; positive-control crate for "
                "the zero-expected lock rules.")
